@@ -11,10 +11,11 @@ ID = "C02"
 LEVEL = "proof"
 MODEL_TARGETS = ["theories/Analysis.vo", "theories/Calculus.vo"]
 TRANSLATORS = ["semiring", "rules"]
-LEVEL_TEXT = ("Theorems in coq/props/C02.v about the Coq model of Analysis.func/cmds (early exit through the delta graph, complete verdict through the "
-              "complement of the recorded and visible infinity delta lists) against the calculus specification; model tied to the code by the end-to-end "
-              "correspondence; the real verdict is compared with the calculus oracle over all 3^k vectors in both modes, with programs that fail by one loop, "
-              "by several loops jointly, by nested loops, and with a second loop after a failing one.")
+LEVEL_TEXT = ("Machine-checked theorems (coq/props/C02.v): reported infinite (by the delta graph's early verdict or by the complete evaluation) => none of the "
+              "3^k choice vectors has a derivation in the calculus; reported not infinite => some vector of the reported degree has one (k = 0 included); "
+              "the verdict is the same in both modes and the whole result is equal when not infinite. Unbounded in program size/nesting. Model tied to the "
+              "code by the end-to-end correspondence; the real verdict is compared with the calculus oracle over all 3^k vectors in both modes on programs "
+              "that fail by one loop, several loops jointly, nested loops, tight multiplicative cycles the delta graph does not detect.")
 LEVEL_NOTE = "Trusted: Coq kernel, translators, reader tools/cread.py, generators. Delta-graph soundness is property C11's theorem; Choices.generate is C04's."
 TECHNIQUE = "Coq proof over an executable model + differential correspondence (vm_compute) + exhaustive-vector calculus oracle, both modes"
 EXPLANATION = "see LEVEL_TEXT"
